@@ -6,7 +6,8 @@ package main
 // CASE <entry> <input hex> | <class>          class = OK.. / ERR.. / PANIC / HANG
 // entries: M ParseMove, T ParseTPS, F PTN file (parse + initial position + replay), S ParseServer,
 //          C chat lines (ParseTell/ParseShout/ParseShoutRoom), J weights JSON, E TEI command stream.
-// For M, T, F, S, E the extracted Coq models classify the same strings (L1 = the class, for M/S/T also the value).
+// For M, T, F, S, E, C the extracted Coq models classify the same strings (L1 = the class, for M/S/T/C also the value:
+// for C the strings returned by the three chat-line parsers).
 
 import (
 	"encoding/hex"
@@ -79,10 +80,12 @@ func c13Entry(entry byte, data string) string {
 		return withDeadline(20*time.Second, func() string { return teiOutcome(data) })
 	case 'C':
 		return withDeadline(limit, func() string {
+			// L1 = the returned strings (model: BotLine.parse_tell / parse_shout / parse_shout_room)
 			a, b := playtak.ParseTell(data)
 			c, d := playtak.ParseShout(data)
 			e, f, g := playtak.ParseShoutRoom(data)
-			return fmt.Sprintf("OK %d", len(a)+len(b)+len(c)+len(d)+len(e)+len(f)+len(g))
+			h := func(x string) string { return hex.EncodeToString([]byte(x)) }
+			return "OK " + h(a) + "," + h(b) + ";" + h(c) + "," + h(d) + ";" + h(e) + "," + h(f) + "," + h(g)
 		})
 	case 'J':
 		return withDeadline(limit, func() string {
@@ -119,6 +122,15 @@ func emitC13(c *ctx, entry byte, data string) {
 		short = "OK"
 	}
 	c.stat("class_"+string(entry)+"_"+short, 1)
+	if entry == 'C' && strings.HasPrefix(cls, "OK ") {
+		if g := strings.Split(cls[3:], ";"); len(g) == 3 {
+			for i, name := range []string{"chat_tell_matched", "chat_shout_matched", "chat_shoutroom_matched"} {
+				if strings.Trim(g[i], ",") != "" {
+					c.stat(name, 1)
+				}
+			}
+		}
+	}
 	c.printf("CASE %c %s | %s\n", entry, hex.EncodeToString([]byte(data)), cls)
 	if cls == "PANIC" || cls == "HANG" {
 		names := map[byte]string{'M': "ptn-move", 'S': "playtak-move", 'T': "tps", 'F': "ptn-file", 'C': "chat", 'J': "weights-json", 'E': "tei"}
@@ -300,12 +312,31 @@ func runC13(c *ctx) {
 	for k := 0; k < 300*c.scale; k++ {
 		emitC13(c, 'F', randBytes(r, r.Intn(60), fileAlpha))
 	}
-	// 5. chat lines and weight JSON (oracle only: regexp and encoding/json are trusted total)
-	chat := []string{"Tell <alice> hello", "Shout <bob> hi there", "ShoutRoom room1 <carol> msg", "Tell", "Shout <", "ShoutRoom", "Tell <> ", "Shout <a", "ShoutRoom x <y"}
+	// 5. chat lines (model family: L1 = the strings ParseTell / ParseShout / ParseShoutRoom return) and weight JSON (oracle
+	// only: encoding/json is trusted total).  ALL strings up to a small length over small alphabets, bare and behind the
+	// literal prefixes of the three patterns (so that complete matches, near matches and every way of failing inside a group are
+	// enumerated: '>' and ' ' inside names, "\n" in names (accepted) and messages (refused), "\t" in rooms, invalid UTF-8,
+	// rooms containing '<'), then real lines and their mutations.
+	const chatAlpha = "<> a\n\t\x80"
+	ext := 0
+	if !c.quick() {
+		ext = 1
+	}
+	allStrings("TelShoutRm<> a\n\t\x80", 3+ext, func(s string) { emitC13(c, 'C', s) })
+	allStrings(chatAlpha, 4+ext, func(s string) { emitC13(c, 'C', "Tell "+s) })
+	allStrings(chatAlpha, 5+ext, func(s string) { emitC13(c, 'C', "Tell <"+s) })
+	allStrings(chatAlpha, 4+ext, func(s string) { emitC13(c, 'C', "Shout <"+s) })
+	allStrings(chatAlpha, 4+ext, func(s string) { emitC13(c, 'C', "ShoutRoom a <"+s) })
+	allStrings("<> a", 7+ext, func(s string) { emitC13(c, 'C', "ShoutRoom "+s) })
+	chat := []string{"Tell <alice> hello", "Shout <bob> hi there", "ShoutRoom room1 <carol> msg", "Tell", "Shout <", "ShoutRoom", "Tell <> ", "Shout <a", "ShoutRoom x <y",
+		"Tell <a> <b> c", "ShoutRoom a<b <c> d", "ShoutRoom a <b <c> d", "ShoutRoom <a> <b> <c> d", "ShoutRoom  <a> b", "ShoutRoom a  <b> c", "ShoutRoom a\t<b> c",
+		"ShoutRoom a\v <b> c", "Tell <a\nb> c", "Tell <a> b\n", "Tell <a> b\nc", "Tell <a> \n", "Tell <a>  ", "Tell <a> ", "Tell <a>b", "Tell <a b> c", "Tell <a>b> c",
+		"Tell <\xff\xfe> \xc3", "Shout <\xe2\x82> \xac", "ShoutRoom \xc3\xa9 <\xf0\x9f\x98\x80> \xed\xa0\x80", " Tell <a> b", "Tell <a> b\r", "tell <a> b",
+		"Tell <a> b Tell <c> d", "Shout <a> b\nShout <c> d", "ShoutRoom Over <x> gg", "ShoutRoom a <b> c\x00d", "Tell <\x00> \x00"}
 	for _, s := range chat {
 		emitC13(c, 'C', s)
 		for k := 0; k < 20*c.scale; k++ {
-			emitC13(c, 'C', mutateBytes(r, s, "<> TelShoutRm\x00"))
+			emitC13(c, 'C', mutateBytes(r, s, "<> TelShoutRm\x00\n\t\x80a"))
 		}
 	}
 	var w ai.Weights = ai.DefaultWeights[5]
